@@ -120,7 +120,7 @@ func genStep(r *sim.RNG, op string) sim.Step {
 		st.I = []int64{ri(r, 2), ri(r, 8)}
 	case "st.add_blobber":
 		st.A = r.Intn(8)
-		st.I = []int64{int64(r.Pick([]int{1, 3, 3, 1, 1})), int64(r.Pick([]int{1, 3, 4, 1, 1})), int64(r.Pick([]int{3, 2, 3, 1})), ri(r, 4)}
+		st.I = []int64{int64(r.Pick([]int{1, 3, 3, 1, 1})), int64(r.Pick([]int{1, 3, 4, 1, 1})), int64(r.Pick([]int{3, 2, 3, 1})), ri(r, 4), int64(r.Pick([]int{14, 0, 0, 0, 0, 0, 1, 1}))}
 	case "st.add_validator":
 		st.A = r.Intn(8)
 	case "block":
@@ -153,7 +153,12 @@ func expand(r *sim.RNG, op string, mccr int) []sim.Step {
 		}
 		return out
 	case "i.challenge":
-		out := []sim.Step{genStep(r, "st.gen_chal")}
+		var out []sim.Step
+		if r.Intn(3) != 0 {
+			// time passes between the upload and the challenge (the reward is proportional to it)
+			out = append(out, sim.Step{Op: "clock", I: []int64{[]int64{60, 3600, 86400}[r.Intn(3)]}}, sim.Step{Op: "st.health_all"})
+		}
+		out = append(out, genStep(r, "st.gen_chal"))
 		if r.Intn(3) == 0 {
 			out = append(out, genStep(r, "block"))
 		}
@@ -242,6 +247,11 @@ func genStorage(r *sim.RNG, p *sim.Plan, tier string, prof *profile) {
 		vpc = nv
 	}
 	p.Cfg["st_mccr"] = int64(mccr)
+	// enterprise world (after the electra fork): enterprise blobbers and allocations, no challenge pools
+	enterprise := forks == 2 && sw.Intn(9) == 0
+	if enterprise {
+		p.Cfg["st_enterprise"] = 1
+	}
 
 	g := r.Child("st-plan")
 	var boot []sim.Step
@@ -286,6 +296,9 @@ func genStorage(r *sim.RNG, p *sim.Plan, tier string, prof *profile) {
 	for i := 0; i < nb; i++ {
 		s := genStep(g, "st.add_blobber")
 		s.A = i
+		if enterprise {
+			s = withI(s, 4, 7)
+		}
 		boot = append(boot, s)
 		for k := 0; k < 1+g.Intn(2); k++ {
 			boot = append(boot, sim.Step{Op: "st.stake", A: g.Intn(nc), I: []int64{0, int64(i), int64(1 + g.Pick([]int{2, 4, 3, 2}))}})
@@ -323,6 +336,18 @@ func genStorage(r *sim.RNG, p *sim.Plan, tier string, prof *profile) {
 	for len(main) < n {
 		op := names[g.Pick(ws)]
 		main = append(main, expand(g, op, minInt(mccr, 6))...)
+	}
+	if enterprise {
+		for i := range boot {
+			if boot[i].Op == "st.new_alloc" {
+				boot[i] = withI(boot[i], 7, 15)
+			}
+		}
+		for i := range main {
+			if main[i].Op == "st.new_alloc" && g.Intn(8) != 0 {
+				main[i] = withI(main[i], 7, 15)
+			}
+		}
 	}
 	// interleave with the base steps of the plan (both orders preserved)
 	base := p.Steps
